@@ -77,13 +77,16 @@ def repo_src_hash(extra=()):
     return h.hexdigest()[:20]
 
 
-def build_harness(name, extra_flags=(), sources=None, link=(), compiler="g++", defines=()):
+def build_harness(name, extra_flags=(), sources=None, link=(), compiler="g++", defines=(), includes=()):
     """Compiles harness/<name>.cpp against /repo/src's *current* content.  The
     binary is cached under build/ keyed by a hash of every file of /repo/src, the
     harness sources and the flags, so an edit of the repository always rebuilds."""
     hdir = os.path.join(ROOT, "harness")
     srcs = [os.path.join(hdir, s) for s in (sources or [name + ".cpp"])]
     deps = srcs + [os.path.join(hdir, f) for f in sorted(os.listdir(hdir)) if f.endswith(".hpp")]
+    for inc in includes:
+        for dp, _, fs in sorted(os.walk(os.path.join(hdir, inc))):
+            deps += [os.path.join(dp, f) for f in sorted(fs)]
     flags = CXXFLAGS + list(extra_flags) + ["-D" + d for d in defines]
     key = repo_src_hash(deps + [" ".join(flags), " ".join(link), compiler])
     out = os.path.join(BUILD, "%s-%s" % (name, key))
@@ -96,7 +99,7 @@ def build_harness(name, extra_flags=(), sources=None, link=(), compiler="g++", d
                 os.remove(os.path.join(BUILD, f))
             except OSError:
                 pass
-    cmd = [compiler] + flags + ["-I" + os.path.join(REPO, "src"), "-I" + hdir] + srcs + ["-o", out + ".tmp"] + list(link)
+    cmd = [compiler] + flags + ["-I" + os.path.join(REPO, "src"), "-I" + hdir] + ["-I" + os.path.join(hdir, i) for i in includes] + srcs + ["-o", out + ".tmp"] + list(link)
     t0 = time.time()
     p = subprocess.run(cmd, capture_output=True, text=True)
     if p.returncode != 0:
